@@ -49,7 +49,7 @@ def driverStep (d : DSt) (ws : List String) : DSt × String :=
     | some x =>
       let tok : Option Tok := if k == "text" then some (.text x) else if k == "charref" then some (.charref x)
         else if k == "entref" then some (.entref x) else if k == "comment" then some (.comment x)
-        else if k == "pi" then some (.pi x) else if k == "decl" then some (.decl x) else none
+        else if k == "pi" then some (.pi x) else if k == "decl" then some (.decl x) else if k == "mdecl" then some (.mdecl x) else none
       (match tok with
         | some tok => out d (step shipped ops0' d.isHtml d.st tok)
         | none => (d, "bad-op"))
@@ -88,7 +88,7 @@ def resDriverStep (ws : List String) : String :=
     | some x =>
       let tok : Option Tok := if k == "text" then some (.text x) else if k == "charref" then some (.charref x)
         else if k == "entref" then some (.entref x) else if k == "comment" then some (.comment x)
-        else if k == "pi" then some (.pi x) else if k == "decl" then some (.decl x) else if k == "etag" then some (.etag x) else none
+        else if k == "pi" then some (.pi x) else if k == "decl" then some (.decl x) else if k == "mdecl" then some (.mdecl x) else if k == "etag" then some (.etag x) else none
       (match tok with
         | some tok => let y := resolverStep shipped relTableShipped (fun v => v) tok; if y.isEmpty then "-" else "P " ++ encChars y
         | none => "bad-op")
